@@ -3,6 +3,8 @@ CONSTANTS MaxRuns = 3 MaxTouch = 2
   Scens <- ScenPlain1
   Settings <- SettingsDefault
   CreatedSetsChanged = TRUE
+  Reuses = {FALSE, TRUE}
+  AutoReload = TRUE
   KeepHistory = TRUE
 INVARIANT Emitted
 CHECK_DEADLOCK FALSE
